@@ -422,6 +422,18 @@ fn emit_fn(
     let _ = write!(out.s, ",\"body\":{}}}", block(body));
 }
 
+/// items declared inside a function body (e.g. a serde Visitor impl inside `deserialize`)
+fn nested_items(out: &mut Out, file: &str, mods: &mut Vec<String>, b: &syn::Block) {
+    let items: Vec<syn::Item> = b
+        .stmts
+        .iter()
+        .filter_map(|s| if let syn::Stmt::Item(i) = s { Some(i.clone()) } else { None })
+        .collect();
+    if !items.is_empty() {
+        walk_items(out, file, mods, &items);
+    }
+}
+
 fn walk_items(out: &mut Out, file: &str, mods: &mut Vec<String>, items: &[syn::Item]) {
     for it in items {
         match it {
@@ -430,6 +442,7 @@ fn walk_items(out: &mut Out, file: &str, mods: &mut Vec<String>, items: &[syn::I
                     continue;
                 }
                 emit_fn(out, file, mods, None, None, &f.sig, &toks(&f.vis), &f.block, f.span());
+                nested_items(out, file, mods, &f.block);
             }
             syn::Item::Impl(im) => {
                 if has_cfg_test(&im.attrs) {
@@ -443,6 +456,7 @@ fn walk_items(out: &mut Out, file: &str, mods: &mut Vec<String>, items: &[syn::I
                             continue;
                         }
                         emit_fn(out, file, mods, Some(&st), tr.as_deref(), &f.sig, &toks(&f.vis), &f.block, f.span());
+                        nested_items(out, file, mods, &f.block);
                     }
                 }
             }
